@@ -41,13 +41,22 @@ def make_blob(rng, enc_len=None, sid=None):
         enc_content_parameters=rng.choice([None, bytes.fromhex("3011040c") + gen.rand_bytes(rng, 12) + bytes.fromhex("020110"), gen.rand_bytes(rng, 3)]))
 
 
+def kid_layout(k):
+    """the DPAPI-NG key identifier as Windows lays it out (MS-GKDI-style header, then key info, domain and forest back to back),
+    written here with struct — not with the library's packer"""
+    import struct
+    dn, fn = (k.domain_name + "\0").encode("utf-16-le"), (k.forest_name + "\0").encode("utf-16-le")
+    return struct.pack("<I4sIIII16sIII", k.version, b"KDSK", k.flags, k.l0, k.l1, k.l2, k.root_key_identifier.bytes_le,
+                       len(k.key_info), len(dn), len(fn)) + k.key_info + dn + fn
+
+
 def template(b, in_env):
     """the bytes RFC 5652 + the Windows layout prescribe, built with the independent DER encoder"""
     S = lambda *k: der.enc(0, True, 16, b"".join(k))
     utf8 = lambda s: der.enc(0, False, 12, s.encode("utf-8"))
     octs = lambda x: der.enc(0, False, 4, x)
     pd = S(der.enc_oid(OID_SID), S(S(S(utf8("SID"), utf8(b.protection_descriptor.value)))))
-    kekid = S(octs(b.key_identifier.pack()), S(der.enc_oid(OID_MS), pd))
+    kekid = S(octs(kid_layout(b.key_identifier)), S(der.enc_oid(OID_MS), pd))
     alg = lambda o, p: S(der.enc_oid(o), p or b"")
     ri = der.enc(2, True, 2, der.enc_int(4) + kekid + alg(b.enc_cek_algorithm, b.enc_cek_parameters) + octs(b.enc_cek))
     content = der.enc(2, False, 0, b.enc_content) if (in_env and b.enc_content) else b""
